@@ -56,21 +56,42 @@ def run(ctx, idx):
         raise AnalysisError("FuzzySelectedUnion: cannot identify the count parameter")
     k = "kw:" + kparam[0]
     con = "%s.execute::selected-end" % d.key
+    def branch_from_conditions(conds):
+        """'Truest' / 'Falsest' from the stack of branch conditions under which a layer slice was taken"""
+        for test, taken in reversed(conds):
+            t = K.expand(fi, test) if hasattr(fi, "node") else test
+            if isinstance(t, ast.Compare) and len(t.ops) == 1 and isinstance(t.ops[0], (ast.Eq, ast.NotEq)):
+                consts = [x.value for x in [t.left] + list(t.comparators) if isinstance(x, ast.Constant)]
+                if consts and consts[0] in ("Truest", "Falsest"):
+                    eq = isinstance(t.ops[0], ast.Eq)
+                    holds = taken == eq
+                    other = "Falsest" if consts[0] == "Truest" else "Truest"
+                    return consts[0] if holds else other
+        return None
+
     seen = {}
-    for node, sel, meth, fk in r.layer_reduces:
-        br = branch_of(fi, node)
-        seen[br] = (sel, meth, node)
+    for rec in r.layer_reads:
+        node, sel, srt, fk = rec[:4]
+        conds = rec[4] if len(rec) > 4 else ()
+        br = branch_from_conditions(conds) or branch_of(fi, node)
+        if br is not None and sel and sel[0] in ("TopK", "BottomK", "?", "UnsortedSlice"):
+            seen[br] = (sel, "mean", node)
+    meths = {meth for node, sel, meth, fk in r.layer_reduces}
     problems = []
+    if not r.layer_reduces:
+        problems.append("no layer-axis mean is taken at all")
+    elif meths != {"mean"}:
+        problems.append("the selected layers are combined by %s, not by their mean" % "/".join(sorted(meths - {"mean"})))
     for br, want in (("Truest", "TopK"), ("Falsest", "BottomK")):
         if br not in seen:
-            problems.append("no layer-axis mean is taken in the %s branch" % br)
+            problems.append("no layer slice is taken for the %s case" % br)
             continue
         sel, meth, node = seen[br]
         if sel is None or sel[0] == "?":
             raise AnalysisError("C06.c: slice form in the %s branch is outside the recognised forms [-k:] / [:k]: %s" % (br, K.src(node)))
-        if meth != "mean":
-            problems.append("the %s branch takes the %s, not the mean, of the selected layers" % (br, meth))
-        if sel[0] != want:
+        if sel[0] == "UnsortedSlice":
+            problems.append("the %s case slices a stack that is not sorted along the layer axis" % br)
+        elif sel[0] != want:
             problems.append("the %s branch selects %s(%s): that is the %s end of the ascending sort" % (br, sel[0], sel[1], "falsest" if sel[0].startswith("Bottom") else "truest" if sel[0].startswith("Top") else "unsorted"))
         elif sel[1] != k:
             problems.append("the %s branch selects %s layers instead of NumberToConsider itself" % (br, sel[1]))
@@ -93,8 +114,8 @@ def run(ctx, idx):
     d, r = res["FuzzyXOr"]
     fi = d.execute
     con = "%s.execute::two-truest" % d.key
-    sels = {sel for node, sel, srt, fk in r.layer_reads}
-    unsorted = [sel for node, sel, srt, fk in r.layer_reads if not srt]
+    sels = {rec[1] for rec in r.layer_reads}
+    unsorted = [rec[1] for rec in r.layer_reads if not rec[2]]
     if unsorted:
         ctx.violate("C06.d", con, d.module.rel, fi.node.lineno, "layers are read from a stack that is not sorted ascending along the layer axis")
     elif sels == {("Top", 1), ("Top", 2)}:
@@ -102,32 +123,12 @@ def run(ctx, idx):
     else:
         ctx.violate("C06.d", con, d.module.rel, fi.node.lineno, "the exclusive-or reads layers %s instead of the truest and second truest" % sorted(map(str, sels)))
     con = "%s.execute::guarded-quotient" % d.key
-    fmin = ("c", -1)
     divs = [x for x in r.divisions if isinstance(x[2], Arr) and x[2].sel == ("Top", 1)]
     if not divs:
         raise AnalysisError("C06.d: no division by (Top(1) - FUZZY_MIN) found in FuzzyXOr")
-    okall = True
-    why = ""
-    for rec in divs:
-        node = rec[3]
-        guard = None
-        for wnode, cond, a, b, fk in r.wheres:
-            if any(node is x for x in ast.walk(wnode)):
-                guard = (cond, a, b, wnode)
-        if guard is None:
-            okall = False
-            why = "the quotient is not selected through a where() guard"
-            continue
-        cond, a, b, wnode = guard
-        in_else = any(node is x for x in ast.walk(wnode.args[2])) if len(wnode.args) > 2 else False
-        cmp = getattr(cond, "cmp", None)
-        if cmp is None or cmp[2] != fmin or cmp[1] not in ("LtE", "Lt", "Eq") or not in_else:
-            okall = False
-            why = "the guard `%s` does not test Top(1) <= FUZZY_MIN in front of the quotient" % K.src(wnode.args[0])
-        elif cmp[1] == "Lt":
-            okall = False
-            why = "the guard uses `<`: Top(1) == FUZZY_MIN still divides by zero"
-        elif not (isinstance(a, Scal) and a.const == -1):
-            okall = False
-            why = "the guarded branch yields %s instead of FUZZY_MIN" % K.src(wnode.args[1])
-    ctx.ob("C06.d", con, d.module.rel, divs[0][0], okall, "quotient by (Top(1) - FUZZY_MIN) is guarded by Top(1) <= FUZZY_MIN -> FUZZY_MIN" if okall else why)
+    bad_rets = [(n, s_, v) for n, s_, v in R.ret_sites(d, r) if isinstance(v, Arr) and v.unguarded]
+    if bad_rets:
+        n, s_, v = bad_rets[0]
+        ctx.violate("C06.d", con, d.module.rel, divs[0][0], "the quotient whose divisor is Top(1) - FUZZY_MIN reaches the result without a guard selecting FUZZY_MIN where Top(1) <= FUZZY_MIN (a `<` test, a swapped branch or no where() at all): when every input is fully false the cell is 0/0")
+    else:
+        ctx.hold("C06.d", con, d.module.rel, divs[0][0], "every use of the quotient by (Top(1) - FUZZY_MIN) is selected by where(Top(1) <= FUZZY_MIN, FUZZY_MIN, ...)")
